@@ -1,12 +1,12 @@
 #ifndef VERIF_SUNMATRIX_SPARSE_H
 #define VERIF_SUNMATRIX_SPARSE_H
 #include <sundials/sundials_matrix.h>
-static inline SUNMatrix SUNSparseMatrix(sunindextype M, sunindextype N, sunindextype NNZ, int sparsetype, SUNContext ctx) {
+static inline SUNMatrix SUNSparseMatrix(sunindextype M, sunindextype N, sunindextype nnz_arg, int sparsetype, SUNContext ctx) {
     SUNMatrix A = (SUNMatrix)calloc(1, sizeof(*A));
-    A->kind = VERIF_MAT_SPARSE; A->M = M; A->N = N; A->NNZ = NNZ; A->sparsetype = sparsetype; A->sunctx = ctx;
+    A->kind = VERIF_MAT_SPARSE; A->M = M; A->N = N; A->nnz_ = nnz_arg; A->sparsetype = sparsetype; A->sunctx = ctx;
     A->NP = (sparsetype == CSR_MAT) ? M : N;
-    A->data = (realtype *)malloc(sizeof(realtype) * (size_t)NNZ + (NNZ ? 0 : 1));
-    A->indexvals = (sunindextype *)malloc(sizeof(sunindextype) * (size_t)NNZ + (NNZ ? 0 : 1));
+    A->data = (realtype *)malloc(sizeof(realtype) * (size_t)nnz_arg + (nnz_arg ? 0 : 1));
+    A->indexvals = (sunindextype *)malloc(sizeof(sunindextype) * (size_t)nnz_arg + (nnz_arg ? 0 : 1));
     A->indexptrs = (sunindextype *)malloc(sizeof(sunindextype) * (size_t)(A->NP + 1));
     SUNMatZero(A);
     return A;
@@ -14,7 +14,7 @@ static inline SUNMatrix SUNSparseMatrix(sunindextype M, sunindextype N, sunindex
 static inline realtype *SUNSparseMatrix_Data(SUNMatrix A) { return A->data; }
 static inline sunindextype *SUNSparseMatrix_IndexValues(SUNMatrix A) { return A->indexvals; }
 static inline sunindextype *SUNSparseMatrix_IndexPointers(SUNMatrix A) { return A->indexptrs; }
-static inline sunindextype SUNSparseMatrix_NNZ(SUNMatrix A) { return A->NNZ; }
+static inline sunindextype SUNSparseMatrix_NNZ(SUNMatrix A) { return A->nnz_; }
 #define SM_DATA_S(A) ((A)->data)
 #define SM_INDEXVALS_S(A) ((A)->indexvals)
 #define SM_INDEXPTRS_S(A) ((A)->indexptrs)
